@@ -64,6 +64,8 @@ def obligations(tier):
                 obs.append({'h': 'sched', 'els': list(kinds), 'points': 1, 'site': site, 'conc': conc,
                             '_weight': 200, '_budget': 300.0})
             if site == 'method':
+                for kinds in (('plainfail', 'co'), ('co', 'plainfail', 'plain')):
+                    obs.append({'h': 'sched', 'els': list(kinds), 'points': 1, 'site': site, 'conc': conc, '_weight': 10})
                 for kinds in (('view', 'view'), ('view', 'co', 'view'), ('view', 'view', 'view')):
                     obs.append({'h': 'sched', 'els': list(kinds), 'points': 1 if len(kinds) == 3 else 2, 'site': site, 'conc': conc, '_weight': 10})
             if tier == 'thorough':
@@ -134,6 +136,10 @@ def h_sched(ob):
             ran.append(i)
             return ['val', i]
 
+        def plainfail(i):
+            ran.append(i)
+            raise TypeError('from the body')
+
         class V(pjrpc.server.ViewMixin):
             # a class-based view registered WITHOUT context that keeps per-call state on self across a suspension
             async def vw(self, i):
@@ -177,6 +183,7 @@ def h_sched(ob):
         d.add(co, name='co')
         d.add(fail, name='fail')
         d.add(plain, name='plain')
+        d.add(plainfail, name='plainfail')
         d.registry.view(V)
         docs = []
         for i, k in enumerate(ob['els']):
@@ -223,7 +230,9 @@ def h_sched(ob):
         for i, k in enumerate(ob['els']):
             if k == 'notif':
                 continue
-            if k == 'fail':
+            if k == 'plainfail':
+                want.append({'jsonrpc': '2.0', 'id': ids[i], 'error': {'code': -32000, 'message': 'Server error'}})
+            elif k == 'fail':
                 want.append({'jsonrpc': '2.0', 'id': ids[i], 'error': {'code': 1000 + i, 'message': 'failed'}})
             else:
                 want.append({'jsonrpc': '2.0', 'id': ids[i], 'result': ['val', i]})
